@@ -384,6 +384,14 @@ ApFresh == [rdy |-> (0 :> 0) @@ (1 :> 0) @@ (2 :> 0), dat |-> (0 :> 0) @@ (1 :> 
             sem |-> 0, msk |-> 0, sig |-> 0]
 ApReset == [fc |-> ApFresh, fd |-> ApFresh]
 
+\* Teakra::Reset (Impl::Reset): memory zeroed, MIU, ICU, APBP, timers, AHBM, DMA, BTDMP, processor (registers, interrupt latches,
+\* idle flag).  NOT reset, as coded: the backing storage of the MMIO cells (`cells`; known finding of C17), the external memory,
+\* the host's callbacks.
+SysReset(y) ==
+    [y EXCEPT !.c.mem = [ph \in {} |-> 0], !.c.io = EmptyIo, !.c.miu = MiuLive, !.c.r = ResetRegs, !.c.lat = <<0, 0, 0, 0>>,
+              !.c.vaddr = 0, !.c.vctx = 0, !.c.idle = FALSE, !.icu = IcuReset, !.tm = <<TM!ResetState, TM!ResetState>>,
+              !.bt = <<BT!ResetState, BT!ResetState>>, !.ap = ApReset, !.dma = DmaReset, !.ah = AhReset]
+
 \* host API calls (teakra.cpp), made between Run calls: [y, ret].  The memory accessors go through the same
 \* MemoryInterface as the guest: MMIO-window accesses have the register's effect, asserts included.
 HostMem(y, c1) == ApplyMmio([y EXCEPT !.c = StripMmio(c1)], c1.acc, 1)
@@ -421,9 +429,7 @@ HostCall(y, op, a1, a2) ==
       [] op = "DMAChan0GetSrcHigh" -> [y |-> y, ret |-> y.dma.ch[1].sa[1]]      \* (activates channel 0 and the saved one again)
       [] op = "DMAChan0GetDstHigh" -> [y |-> y, ret |-> y.dma.ch[1].da[1]]
       [] op = "MMIOWrite"     -> [y |-> MmioWrite(HostMmio(y, a1 % 2048), a1 % 2048, a2), ret |-> 0]
+      [] op = "Reset"         -> [y |-> SysReset(y), ret |-> 0]
       [] op = "MMIORead"      -> [y |-> ApbpReadEffect(HostMmio(y, a1 % 2048), a1 % 2048), ret |-> MmioRead(y, a1 % 2048)]
 
-SysReset(y) ==       \* Teakra::Impl::Reset: memory zeroed, MIU, APBP, timers, AHBM, DMA, BTDMP, processor registers
-    [y EXCEPT !.c.mem = [ph \in {} |-> 0], !.c.io = EmptyIo, !.c.miu = MiuLive, !.tm = <<TM!ResetState, TM!ResetState>>,
-              !.bt = <<BT!ResetState, BT!ResetState>>, !.ap = ApReset, !.dma = DmaReset, !.ah = AhReset]
 =============================================================================
